@@ -64,7 +64,15 @@ def main():
     n_obl = len(props["theorems"])
     n_dis = n_obl if props["ok"] else 0
     if not props["ok"]:
-        ctx.brk("theorem:" + str(props["failed"]), props["output"])
+        detail = props["output"]
+        if "model_sources_reviewed" in str(props["failed"]):
+            try:
+                import accept_digests
+                detail = ("functions of /repo that differ from the reviewed text the model was written against "
+                          "(coq/Doc/DocSrcDigest.v):\n" + "\n".join(accept_digests.diff()[:40]) + "\n" + detail[-1200:])
+            except Exception:
+                pass
+        ctx.brk("theorem:" + str(props["failed"]), detail)
     axioms = {}
     for name, ax in props["assumptions"].items():
         bad = [x for x in ax if not any(x.startswith(al) for al in ALLOWED_AXIOMS)]
